@@ -65,6 +65,45 @@ def showRes : Res → String
   | .opt none => "~" | .opt (some i) => s!"s{i}"
   | .bool true => "t" | .bool false => "f"
 
+/-! lock-aware machine (`registry lrun`): calls `g|r|d/<kd>/<key>`, `c` (clear), `v/<kd>/<0|1>` (visit, 1 = the
+    callback parks), `t/<kd>/<classes joined by _ or ->/<0|1>` (retain keeping these classes) -/
+
+def boolTok : String → Option Bool
+  | "0" => some false | "1" => some true | _ => none
+
+def clsTok (s : String) : Option (List Nat) :=
+  if s == "-" then some [] else (s.splitOn "_").mapM String.toNat?
+
+def lcallTok (s : String) : Option (LCall DKey) :=
+  match s.splitOn "/" with
+  | ["c"] => some .clear
+  | ["v", kd, h] => do pure (.visit (← kindTok kd) (← boolTok h))
+  | ["t", kd, cs, h] => do
+    let cs ← clsTok cs
+    pure (.retain (← kindTok kd) (fun k _ => cs.contains k.cls) (← boolTok h))
+  | [o, kd, k] => do
+    let kd ← kindTok kd
+    let k ← keyTok k
+    match o with
+    | "g" => some (.goc kd k) | "r" => some (.get kd k) | "d" => some (.delete kd k) | _ => none
+  | _ => none
+
+def lprogTok (s : String) : Option (List (LCall DKey)) :=
+  if s == "-" then some [] else (s.splitOn "+").mapM lcallTok
+
+def showLRes : LRes DKey → String
+  | .id i => toString i
+  | .opt none => "~" | .opt (some i) => s!"s{i}"
+  | .bool true => "t" | .bool false => "f"
+  | .unit => "u"
+  | .listing l =>
+    "L" ++ "_".intercalate (((l.map (fun p => (p.1.cls, p.2))).mergeSort pairLe).map (fun (p : Nat × Nat) => s!"{p.1}:{p.2}"))
+
+def lcallLabelArg : Option (LCall DKey) → Option Bool
+  | some (.visit _ _) => some false
+  | some (.retain _ _ _) => some true
+  | _ => none
+
 def handle (st : Option St) (args : List String) : Option (Option St × String) :=
   match args with
   | ["new", count] => do
@@ -84,6 +123,24 @@ def handle (st : Option St) (args : List String) : Option (Option St × String) 
     let res := showList (fun (t : Thread DKey) => showList showRes t.results |>.replace "," "+") s.threads
     let fin := " ".intercalate ([Kind.counter, .gauge, .histogram].map (fun kd => showPairs (visit s.reg kd)))
     pure (st, s!"{".".intercalate labels} | {res} | {fin} | created={s.reg.next}")
+  | ["lrun", count, pre, progs, sched] => do
+    let c ← count.toNat?
+    if c = 0 then none else
+    let pre ← progTok pre
+    let progs ← listTok lprogTok progs
+    let sched ← schedTok sched
+    let r0 := (runOps dko (Reg.new c) (pre.map Call.toOp)).1
+    let s0 : LSys DKey := { LSys.init c progs with reg := r0 }
+    let (s, labels) := sched.foldl (fun (acc : LSys DKey × List String) tid =>
+        let lbl := match acc.1.threads[tid]? with
+          | some t => t.pc.label (lcallLabelArg t.calls.head?)
+          | none => "nothread"
+        (lstep dko acc.1 tid, acc.2 ++ [lbl])) (s0, [])
+    let res := showList (fun (t : LThread DKey) =>
+        if t.results.isEmpty then "." else "+".intercalate (t.results.map showLRes)) s.threads
+    let fin := " ".intercalate ([Kind.counter, .gauge, .histogram].map (fun kd => showPairs (visit s.reg kd)))
+    let pcs := showList (fun (t : LThread DKey) => t.pc.label (lcallLabelArg t.calls.head?)) s.threads
+    pure (st, s!"{".".intercalate labels} | {res} | {fin} | created={s.reg.next} | {pcs}")
   | op :: rest => do
     let r ← st
     match op, rest with
